@@ -41,8 +41,9 @@ let outcome_of = function
   | "incompat" -> OIncompat | s -> failwith ("outcome " ^ s)
 let mode_of = function 'r' -> MR | 'w' -> MW | 'a' -> MA | c -> failwith "mode"
 let finfo_of s = match List.map z_of_string (String.split_on_char ',' s) with
-  | [a; b; c; d; e; f; g; h] ->
-    { f_offset = a; f_count = b; f_psize = c; f_minor = d; f_nevlrs = e; f_evlr_start = f; f_evlr_bytes = g; f_size = h }
+  | [a; b; c; d; e; f; g; h; i] ->
+    { f_offset = a; f_count = b; f_psize = c; f_minor = d; f_nevlrs = e; f_evlr_start = f; f_evlr_bytes = g; f_size = h;
+      f_evlr_bad = (i <> Z0) }
   | _ -> failwith ("finfo " ^ s)
 let rest t k = String.sub t k (String.length t - k)
 
@@ -64,7 +65,7 @@ let event_of t =
   | 'L' -> (match String.split_on_char ':' (rest t 2) with
             | [""; o; f] | [o; f] -> EReadLas (bool_of_char t.[1], finfo_of f, outcome_of o)
             | _ -> failwith ("readlas " ^ t))
-  | 'Z' -> ERewind
+  | 'Z' -> ERewind (if String.length t > 1 then z_of_string (rest t 1) else Z0)
   | _ -> failwith ("event " ^ t)
 
 let tok_of_res = function RDone -> "ok" | RRaised XLaspy -> "xl" | RRaised XOther -> "xo" | RIgnored -> "ig"
@@ -81,8 +82,9 @@ let tok_of_obs o = String.concat ":" [tok_of_how o.o_how; tok_of_bool o.o_closef
 let dispatch cmd a =
   match cmd with
   | "run" ->
-    let evs = List.map event_of (Array.to_list (Array.sub a 1 (Array.length a - 1))) in
-    let tr = trace (init (bool_of_tok a.(0))) evs in
+    (* run <seekable T/F> <position of the stream when laspy first gets it> <events> *)
+    let evs = List.map event_of (Array.to_list (Array.sub a 2 (Array.length a - 2))) in
+    let tr = trace (init_at (bool_of_tok a.(0)) (z_of_string a.(1))) evs in
     let last = List.fold_left (fun _ (_, t) -> Some t) None tr in
     let log = match last with Some t -> t.st_log | None -> [] in
     String.concat " " (List.map (fun (r, t) ->
